@@ -105,6 +105,7 @@ def run(ctx):
     full2 = L.apply_changed({ps.paths[n]: d for n, d in ps.files.items()}, c2["changed"])
     full1 = L.apply_changed({s1.paths[n]: d for n, d in s1.files}, c1["changed"])
     vols2 = sorted(p for p in c2["changed"] if p != ps.index)
+    ps.created, ps.volumes, ps.base = full2, vols2, "arc"
     vols1 = sorted(p for p in c1["changed"] if p != s1.index)
 
     def states(full, index, datapaths, vols, cap=None):
@@ -197,6 +198,41 @@ def run(ctx):
                     bad = "repair exits 0 although %s are still damaged or missing" % wrong
         if desc.startswith("usage") and mcode == 3 and code != 3:
             bad = "usage error exits %d, not 3" % code
+        # command lines that are usage errors by the property's own wording (no command, unknown command, missing
+        # arguments, flags that do not parse) must exit 3 whatever the model says
+        DEFINITE_USAGE = ([], ["frobnicate", "x.par2"], ["v"], ["r"], ["c"], ["c", "x.par2"], ["-g", "abc", "v", "x.par2"],
+                          ["-nosuchflag", "v", "x.par2"], ["v", "-nosuch", "x.par2"], ["r", "-doublecheck=maybe", "x.par2"], ["c", "-c"], ["-g"])
+        if desc.startswith("usage") and args in DEFINITE_USAGE and code != 3:
+            bad = "usage error exits %d, not 3" % code
+        # the statuses 0 / 1 / 2 from the TRUTH of the state, independent of the model: slices present (content search in the
+        # originals), complete recovery packets present (byte search), PAR1 files and volumes byte-identical to what was created
+        if (kind.startswith("par2") or kind.startswith("par1")) and "|" in desc:
+            sname = desc.split("|")[1]
+            verb = kind.split(" ")[1].lower()
+            want = None
+            if sname not in ("damaged index", "missing index"):
+                if kind.startswith("par2"):
+                    truth = P.independent_usable(ps, fs)
+                    if truth is not None:
+                        lost, have = ps.nslices() - truth, P.intact_block_count(ps, fs)
+                        anywrong = any(fs.get(p_) != full2[p_] for p_ in ps.paths.values())
+                    else:
+                        lost = None
+                else:
+                    lost = sum(1 for p_ in s1.paths.values() if fs.get(p_) != full1[p_])
+                    have = sum(1 for v_ in vols1 if fs.get(v_) == full1[v_])
+                    anywrong = lost > 0
+                if lost is not None:
+                    if verb in ("v", "verify"):
+                        want = 0 if not anywrong else (1 if lost <= have else 2)
+                    else:
+                        want = 0 if lost <= have else 2
+            if want is not None:
+                dist["truth_based_status_cases"] = dist.get("truth_based_status_cases", 0) + 1
+            if want is not None and code != want and not bad:
+                bad = "exit status %d, the property requires %d in the state '%s' (%s: %d lost, %d recovery blocks/volumes intact)" % (code, want, sname, verb, lost, have)
+            if sname in ("damaged index", "missing index") and code in (0, 3):
+                bad = "exit status %d for a %s (a failure that is not a usage error must exit with another non-zero status)" % (code, sname)
         if desc.startswith("create") and code == 0:
             outs = [p for p in changed if p.startswith(SETDIR + "/new.")]
             if not outs:
